@@ -44,6 +44,7 @@ ERRS = {'ValueError': 1, 'TypeError': 2, 'IncompatibleAttribute': 3, 'RecursionE
 FIRST_FRESH = 100
 
 _label_code = None
+_WORLD = {}
 
 
 def label_tables():
@@ -110,6 +111,7 @@ class Exec(object):
         self.objs = {}          # number -> ComponentID
         self.num = {}           # id(ComponentID) -> number
         self.coords_objs = {}   # id -> coordinates object
+        self.coords_spec = {}
         self.pool = []
         for n, l in pool:
             c = ComponentID(lstr(l))
@@ -117,18 +119,29 @@ class Exec(object):
             self.pool.append(n)
         self.next = FIRST_FRESH
         self.d = Data(label=DLABELS[dlabel], coords=self.coords(coords))
-        self.b = Data(label='bystander', v=[1, 2])
-        self.dc = DataCollection([self.b])
         self.log = []
         self.ext_seen = {}
         self.pa_seen = {}
-        outer = self
+        # the collection, its bystander dataset and the recording listener are shared by all cases (creating a Data object
+        # costs ~1 ms); the previous case's dataset has been removed from the collection and the bystander's link-manager
+        # bookkeeping is reset, so every case starts from the same collection state
+        W = _WORLD
+        if not W:
+            W['b'] = Data(label='bystander', v=[1, 2])
+            W['dc'] = DataCollection([W['b']])
 
-        class Rec(HubListener):
-            def register_to_hub(self, hub):
-                hub.subscribe(self, Message, handler=outer._record, priority=10 ** 6)
-        self.rec = Rec()
-        self.rec.register_to_hub(self.dc.hub)
+            class Rec(HubListener):
+                def register_to_hub(self, hub):
+                    hub.subscribe(self, Message, handler=lambda m: W['sink'](m), priority=10 ** 6)
+            W['rec'] = Rec()
+            W['rec'].register_to_hub(W['dc'].hub)
+        self.b, self.dc, self.rec = W['b'], W['dc'], W['rec']
+        for old in list(self.dc):
+            if old is not self.b:
+                self.dc.remove(old)
+        self.b._pixel_aligned_data = type(self.b._pixel_aligned_data)()
+        self.b._externally_derivable_components = type(self.b._externally_derivable_components)()
+        W['sink'] = self._record
         if mode == 2:
             self.dc.append(self.d)
         elif mode == 1:
@@ -151,6 +164,9 @@ class Exec(object):
             return None
         return self.num.get(id(c), -1)
 
+    def nn(self, c):
+        return -2 if c is None else self.num.get(id(c), -1)
+
     def obj(self, n):
         if n not in self.objs:
             raise Unknown(n)
@@ -162,6 +178,7 @@ class Exec(object):
         i, kind, nd = spec
         if i not in self.coords_objs:
             self.coords_objs[i] = make_coords(kind, nd)
+            self.coords_spec[i] = [i, kind, nd]
         return self.coords_objs[i]
 
     def coords_id(self, obj):
@@ -208,19 +225,19 @@ class Exec(object):
         G = self.G
         t = type(m)
         if t is G.DataAddComponentMessage:
-            r = (1, self.n(m.component_id))
+            r = (1, self.nn(m.component_id))
         elif t is G.DataRemoveComponentMessage:
-            r = (2, self.n(m.component_id))
+            r = (2, self.nn(m.component_id))
         elif t is G.ComponentsChangedMessage:
             r = (3,)
         elif t is G.ComponentReplacedMessage:
-            r = (4, self.n(m.old), self.n(m.new))
+            r = (4, self.nn(m.old), self.nn(m.new))
         elif t is G.DataReorderComponentMessage:
-            r = (5, tuple(self.n(c) for c in m.component_ids))
+            r = (5, tuple(self.nn(c) for c in m.component_ids))
         elif t is G.DataRenameComponentMessage:
-            r = (6, self.n(m.component_id))
+            r = (6, self.nn(m.component_id))
         elif t is G.NumericalDataChangedMessage:
-            r = (7, None if m.components_changed is None else tuple(self.n(c) for c in m.components_changed))
+            r = (7, None if m.components_changed is None else tuple(self.nn(c) for c in m.components_changed))
         elif t is G.DataUpdateMessage:
             r = (8,) if m.attribute == 'label' else (8, str(m.attribute))
         elif t is G.ExternallyDerivableComponentsChangedMessage:
@@ -711,16 +728,25 @@ def compare(op, real, model, tainted):
     if model['outcome'] != real['outcome']:
         return {'field': 'outcome', 'model': model['outcome'], 'impl': real['outcome']}
     rm, mm = list(real['msgs']), list(model['msgs'])
+    # PixelAlignedDataChangedMessage belongs to the link manager (not modelled; the oracle checks it against the change)
+    rm = [x for x in rm if x[0] != 12]
     if tainted:
-        rm = [x for x in rm if x[0] not in (9, 12)]
-        mm = [x for x in mm if x[0] not in (9, 12)]
+        rm = [x for x in rm if x[0] != 9]
+        mm = [x for x in mm if x[0] != 9]
     if op[0] == 'updfrom':
         rm, mm = canon_uvfd(rm), canon_uvfd(mm)
     if rm != mm:
         return {'field': 'messages', 'model': mm, 'impl': rm}
     for f in ('shape', 'comps', 'pixel', 'world', 'coords', 'clinks', 'labels', 'dlabel'):
-        if real['snap'][f] != model['snap'][f]:
-            return {'field': f, 'model': model['snap'][f], 'impl': real['snap'][f]}
+        a, b = real['snap'][f], model['snap'][f]
+        if tainted and f == 'clinks':
+            continue      # stale coordinate links (F-C03, owned by C03) / links to removed coordinate components
+        if tainted and f == 'comps':
+            # inputs of derived links are compared only while no internal link dangles (F-C14a on an unrepaired tree)
+            a = [[k, c, sh, [] if k == 2 else ex] for k, c, sh, ex in a]
+            b = [[k, c, sh, [] if k == 2 else ex] for k, c, sh, ex in b]
+        if a != b:
+            return {'field': f, 'model': b, 'impl': a}
     if model['snap']['stuck']:
         return {'field': 'stuck', 'model': 1, 'impl': 0}
     if not tainted:
@@ -745,13 +771,17 @@ def run_real(case, finds=FINDS):
     return init, steps, ex
 
 
-def evaluate(R, cases, stream, model=True, count=True):
-    """run cases on implementation (+ model); report failures; returns list of (case, kind) failures"""
+def evaluate(R, cases, stream, model=True, count=True, done=None):
+    """run cases on implementation (+ model); report failures; returns list of (case, kind) failures.
+    done: results of the implementation runs when the generator has already executed the case"""
     reals = []
     lines = []
-    for case in cases:
-        init, steps, ex = run_real(case)
-        reals.append((init, steps))
+    for j, case in enumerate(cases):
+        if done is not None:
+            reals.append(done[j])
+        else:
+            init, steps, ex = run_real(case)
+            reals.append((init, steps))
         if model:
             lines.append(enc_case(case, FINDS))
     outs = R.model(lines) if model else [None] * len(cases)
@@ -868,6 +898,9 @@ class Tracker(object):
 
     def __init__(self, mode, coords, pool):
         self.ex = Exec(mode, coords, pool)
+        self.mode, self.coords0 = mode, coords
+        self.init = self.ex.snapshot(FINDS)
+        self.steps = []
         self.ops = []
         self.ncoords = 10
         self.used_pool = set()
@@ -875,9 +908,14 @@ class Tracker(object):
     def do(self, op):
         if not self.ex.in_model_domain(op):
             return False
-        self.ex.step(op, [])
+        self.steps.append(self.ex.step(op, FINDS))
         self.ops.append(op)
         return True
+
+    def case(self, **extra):
+        c = {'mode': self.mode, 'coords': self.coords0, 'pool': POOL, 'ops': self.ops}
+        c.update(extra)
+        return c, (self.init, self.steps)
 
     # helpers on the current real state
     def ids(self, kinds):
@@ -907,9 +945,11 @@ class Tracker(object):
         d = self.ex.d
         co = None
         if d.coords is not None:
-            cid_ = self.ex.coords_id(d.coords)
-            kind = 0 if type(d.coords).__name__ == 'IdentityCoordinates' else 1
-            co = [cid_, kind, len(d.shape)] if share_coords else self.new_coords(kind, len(d.shape))
+            spec = self.ex.coords_spec[self.ex.coords_id(d.coords)]
+            if len(d.components) == 0:
+                co = list(spec) if share_coords else None
+            else:
+                co = list(spec) if share_coords else self.new_coords(spec[1], spec[2])
         return ['updfrom', list(shape), list(mains), co, dl]
 
 
@@ -921,7 +961,7 @@ def abstract_alphabet():
         return t.shape() if len(t.ex.d.components) else [2]
     A['add_a'] = lambda t: ['addnew', 0, default_shape(t)]
     A['add_b_badshape'] = lambda t: ['addnew', 1, [3] if default_shape(t) != [3] else [2]]
-    A['add_derived'] = lambda t: ['addder', 3, [(t.ids('md') or t.ids('c') or [1])[-1]]]
+    A['add_derived'] = lambda t: ['addder', 1, [(t.ids('md') or t.ids('c') or [1])[-1]]]
     A['remove_first'] = lambda t: ['remove', (t.ids('md') or [2])[0]]
     A['remove_last'] = lambda t: ['remove', (t.ids('md') or [2])[-1]]
     A['reorder_rev'] = lambda t: ['reorder', list(reversed(t.ids('mdc')))]
@@ -946,8 +986,9 @@ def stream_exhaustive(R):
     names = sorted(A)
     plan = []
     full_len = R.pick(3, 4)
-    for mode in (0, 1, 2):
-        for n in range(1, full_len + 1):
+    side_len = R.pick(2, 3)
+    for mode, upto in ((2, full_len), (0, side_len), (1, side_len)):
+        for n in range(1, upto + 1):
             for seq in itertools.product(names, repeat=n):
                 plan.append((mode, None, seq))
     if R.quick():
@@ -958,6 +999,7 @@ def stream_exhaustive(R):
         for seq in itertools.product(CORE, repeat=seq_len):
             plan.append((2, [1, 0, 1], seq))
     cases = []
+    done = []
     seen = set()
     for mode, coords, seq in plan:
         t = Tracker(mode, coords, POOL)
@@ -970,16 +1012,19 @@ def stream_exhaustive(R):
         if key in seen:
             continue
         seen.add(key)
-        cases.append({'mode': mode, 'coords': coords, 'pool': POOL, 'ops': t.ops, 'abstract': list(seq)})
+        c, res = t.case(abstract=list(seq))
+        cases.append(c)
+        done.append(res)
     fl = []
     for i in range(0, len(cases), 4000):
-        fl += evaluate(R, cases[i:i + 4000], 'exhaustive')
+        fl += evaluate(R, cases[i:i + 4000], 'exhaustive', done=done[i:i + 4000])
     report(R, fl)
     R.sample({'stream': 'exhaustive', 'case': cases[len(cases) // 2]})
     R.stream('exhaustive', cases=len(cases), planned=len(plan), exhaustive=True,
-             bound='every sequence of 1..%d abstract operations over %d names (%s) in each of the three hub modes%s, resolved against the current '
-                   'state; plus sequences <= 3 over the core names on a dataset created with coordinates'
-                   % (full_len, len(names), ', '.join(names), '; plus length 4 over the 8 core names inside a collection' if R.quick() else ''))
+             bound='every sequence of 1..%d abstract operations over %d names (%s) inside a collection and of 1..%d without hub / hub only%s, '
+                   'resolved against the current state; plus sequences <= 3 over the core names on a dataset created with coordinates'
+                   % (full_len, len(names), ', '.join(names), side_len,
+                      '; plus length 4 over the 8 core names inside a collection' if R.quick() else ''))
 
 
 def random_case(R, i):
@@ -1042,8 +1087,7 @@ def random_case(R, i):
             if t.ex.d.coords is not None and rng.random() < 0.4:
                 op = ['coords', None]
             elif t.ex.d.coords is not None and rng.random() < 0.2:
-                cid_ = t.ex.coords_id(t.ex.d.coords)
-                op = ['coords', [cid_, 0 if type(t.ex.d.coords).__name__ == 'IdentityCoordinates' else 1, len(sh)]]
+                op = ['coords', list(t.ex.coords_spec[t.ex.coords_id(t.ex.d.coords)])]
             else:
                 op = ['coords', t.new_coords(rng.choice([0, 1]), len(sh))]
         elif r < 0.82 and m:
@@ -1073,15 +1117,17 @@ def random_case(R, i):
         if op is None:
             continue
         t.do(op)
-    return {'mode': mode, 'coords': coords, 'pool': POOL, 'ops': t.ops, 'sub': i}
+    return t.case(sub=i)
 
 
 def stream_random(R):
     n = R.pick(350, 6000)
-    cases = [random_case(R, i) for i in range(n)]
+    both = [random_case(R, i) for i in range(n)]
+    cases = [c for c, _ in both]
+    done = [r for _, r in both]
     fl = []
     for i in range(0, len(cases), 2000):
-        fl += evaluate(R, cases[i:i + 2000], 'random')
+        fl += evaluate(R, cases[i:i + 2000], 'random', done=done[i:i + 2000])
     report(R, fl)
     R.sample({'stream': 'random', 'case': cases[0]})
     R.stream('random', cases=n, exhaustive=False,
